@@ -547,7 +547,7 @@ def r9(ctx, rep):
     ok = False
     for n in walk(f["body"]):
         if n.get("k") == "if" and n["l"] < spec_line and any(r.get("k") == "return" and "Err" in show(r.get("e"), maxdepth=4) for r in walk(n["t"])):
-            c = show(n["c"], maxdepth=12)
+            c = __import__("alpha").Inliner(f).show(n["c"])      # named booleans are inlined
             ok = ok or ("WindowKind::Range" in c and "is_empty()" in c and ("range.start" in c or "range.end" in c))
     # which bounds count as "no offset": only an absent bound and the literal 0 (CURRENT ROW); every pattern over an integer bound inside the
     # function's offset test must be exactly `0`
